@@ -108,6 +108,9 @@ func MerkleTreeLeafFromRawChain(rawChain []ASN1Cert, etype LogEntryType, timesta
 
 // MerkleTreeLeafFromChain generates a MerkleTreeLeaf from a chain and timestamp.
 func MerkleTreeLeafFromChain(chain []*x509.Certificate, etype LogEntryType, timestamp uint64) (*MerkleTreeLeaf, error) {
+	if len(chain) == 0 {
+		return nil, fmt.Errorf("no certificates in chain")
+	}
 	leaf := MerkleTreeLeaf{
 		Version:  V1,
 		LeafType: TimestampedEntryLeafType,
